@@ -9,7 +9,7 @@ void h_val(void) {
   g_ret = @p@ReadValues(in_fp, in_n, in_dest, in_perline, in_persize);
   __CPROVER_assert(0, "canary: reader returns");
   if (in_n == NMAX) __CPROVER_assert(0, "canary: largest instance");
-  if (in_perline * in_persize >= 78) __CPROVER_assert(0, "canary: fields fill the 80 columns");
+  if (in_persize == (PSMAX < 80 / PLFIX ? PSMAX : 80 / PLFIX)) __CPROVER_assert(0, "canary: widest field of the instance");
 #if PLFIX > 1
   if (in_n % in_perline == 1 && g_i == in_n - 1) __CPROVER_assert(0, "canary: last line holds one item");
 #endif
